@@ -125,6 +125,12 @@ func init() {
 			pc.Cfg.RootType = rootName
 			pcs = append(pcs, pc)
 		}
+		// (h) three colliding definition names with a reference from one into another (name bookkeeping while a type
+		// is in progress): the package must compile, except where the model predicts the redeclaration (K30 / K21)
+		for _, pc := range collisionThroughRefsCases("c01-collisions-through-refs") {
+			pc.Docs = nil
+			pcs = append(pcs, pc)
+		}
 		// (g) every constraint keyword ALONE in a file (the imports a validator needs must come with that validator, not
 		// with a neighbour): one property with exactly one keyword, optional / required / definition / array item,
 		// with and without --extra-imports, --only-models, --min-sized-ints
